@@ -14,6 +14,7 @@ R1.7  writer typestate: indent()/dedent() are balanced on every path of every em
       the signature generator leaves +1 that the method generator closes)
 R1.8  de-collision precedes emission and the set of schemas that get files is the set that is exported/imported: a
       file filter after naming must be unsatisfiable or be applied to the registry the exports are rendered from
+R1.10 the tag client modules client.py imports are the ones the endpoints emitter writes (grouping agreement, rules of C07)
 R1.9  duplicate argument names cannot be emitted (operation-level override + de-dup)                     [= R4.4 / R20.2]
 """
 from __future__ import annotations
@@ -109,6 +110,12 @@ def run(repo: Repo, rep: Report, tier: str) -> None:
 
     # ---------------------------------------------------------------- R1.8
     _models_emitter_rules(repo, rep)
+
+    # ---------------------------------------------------------------- R1.10 client.py imports exactly the tag modules that are written
+    # (tag grouping / canonical spelling agreement between EndpointsEmitter and ClientVisitor, no filter between grouping and emission: C07)
+    from rules._reuse import reuse
+
+    reuse(repo, rep, "c07", {"R7.4": "R1.10", "R7.5": "R1.10"})
 
     # ---------------------------------------------------------------- R1.9
     _dedup_site(repo.func("visit.endpoint.processors.parameter_processor:EndpointParameterProcessor.process_parameters"), "operation parameters",
